@@ -338,7 +338,7 @@ def js_pipeline(run, label, alphabet, maxlen, header):
     d = tlcrun.new_scratch('extp')
     consts = {'DlmA': 44, 'DlmB': 0, 'EmitCases': 'TRUE', 'Recs': '{}', 'MaxRecs': 0, 'WPolicies': '{}', 'LineSeps': '{}',
               'PAlphabet': '{' + ', '.join(map(str, alphabet)) + '}', 'PMaxLen': maxlen, 'InPolicies': '{"simple", "quoted", "quoted_rfc"}',
-              'OutPolicies': '{"simple", "quoted", "quoted_rfc"}', 'OutDlm': 59, 'WithHeader': 'TRUE' if header else 'FALSE', 'PQueries': '{1, 2}'}
+              'OutPolicies': '{"simple", "quoted", "quoted_rfc"}', 'OutDlm': 59, 'WithHeader': 'TRUE' if header else 'FALSE', 'PEnc': '"utf-8"', 'PQueries': '{1, 2}'}
     cfg = tlcrun.write_cfg(os.path.join(d, label + '.cfg'), constants=consts, init='PInit', next_='PNext', invariants=['ReReadable', 'PEmit'])
     res = tlcrun.run_tlc('Pipeline', cfg, timeout=7200, heap='24g')
     run.add_tlc('Pipeline:' + label, res)
